@@ -226,6 +226,11 @@ pub fn c17_shapes(thorough: bool) -> Vec<Shape> {
         Shape::new("two_plus_one_phase2", &[Commit, AllocMul, AllocMul, Con], &[&[Chal, AllocMul, Con]]),
         Shape::new("zero_plus_two_phase2", &[Commit], &[&[Chal, AllocMul, AllocMul, Con]]),
         Shape::new("one_plus_zero_closure", &[Alloc], &[&[Chal, Con]]),
+        // single allocations paired around a full gate (the pair shares ONE gate: 2 gates, not 3), and a pair split by
+        // the phase boundary (the open allocation is closed there: 1 + 1 gates)
+        Shape::new("gate_between_paired_allocations", &[Commit, Alloc, AllocMul, Alloc, Con], &[]),
+        Shape::new("two_gates_between_paired_allocations", &[Alloc, AllocMul, Mul, Alloc, Alloc, Con], &[]),
+        Shape::new("allocation_pair_split_by_the_phase_boundary", &[Commit, Alloc], &[&[Chal, Alloc, Con]]),
     ];
     if thorough {
         v.push(Shape::new("five_gates", &[AllocMul, AllocMul, AllocMul, AllocMul, AllocMul, Con], &[]));
